@@ -67,6 +67,69 @@ class State:
         }
 
 
+class Flex:
+    """A set of admissible states: per key the admissible [w, md] alternatives; keys in
+    `optional` may be absent."""
+
+    def __init__(self, weighted, nodes):
+        self.weighted = weighted
+        self.nodes = nodes
+        self.edges = {}
+        self.optional = set()
+        self.hgmd = None
+
+    def diff(self, obs, with_hgmd=False):
+        """aspects in which the observed State `obs` is outside this set"""
+        d = []
+        if bool(self.weighted) != bool(obs.weighted):
+            d.append("weighted")
+        if set(self.nodes) != set(obs.nodes):
+            d.append("nodes")
+        elif self.nodes != obs.nodes:
+            d.append("node_md")
+        need = set(self.edges) - self.optional
+        if not (need <= set(obs.edges) <= set(self.edges)):
+            d.append("edges")
+        else:
+            if any(all(obs.edges[k][0] != a[0] for a in self.edges[k]) for k in obs.edges):
+                d.append("weights")
+            elif any(all(obs.edges[k] != a for a in self.edges[k]) for k in obs.edges):
+                d.append("edge_md")
+        return d
+
+    def concretise(self, cap=128):
+        """all member states, or None when there are more than cap"""
+        import itertools
+
+        keys = list(self.edges)
+        choices = []
+        n = 1
+        for k in keys:
+            c = [a for a in self.edges[k]] + ([None] if k in self.optional else [])
+            # drop duplicates
+            u = []
+            for a in c:
+                if a not in u:
+                    u.append(a)
+            choices.append(u)
+            n *= len(u)
+            if n > cap:
+                return None
+        out = []
+        for combo in itertools.product(*choices):
+            T = State(self.weighted, _copy.deepcopy(self.nodes), {})
+            for k, a in zip(keys, combo):
+                if a is not None:
+                    T.edges[k] = [a[0], _copy.deepcopy(a[1])]
+            out.append(T)
+        return out
+
+    def describe(self):
+        return {"weighted": self.weighted, "nodes": {repr(n): m for n, m in self.nodes.items()},
+                "edges(admissible alternatives)": {repr(sorted_key(k)): v for k, v in self.edges.items()},
+                "optional": [repr(sorted_key(k)) for k in self.optional]}
+
+
 def sorted_key(k):
     """printable canonical form of a key"""
     if isinstance(k, frozenset):
@@ -140,8 +203,9 @@ class Outcome:
     must_raise: returning normally is a violation
     rejected: admissible post-states when the call raised"""
 
-    def __init__(self, states, may_raise=False, must_raise=False, rejected=None):
+    def __init__(self, states, may_raise=False, must_raise=False, rejected=None, unknown=False):
         self.states = states
+        self.unknown = unknown  # the model's branching exceeded its cap: event not judged
         self.may_raise = may_raise or must_raise
         self.must_raise = must_raise
         self.rejected = rejected
@@ -205,36 +269,36 @@ class Model:
             return [T]
         # keep_edges=True: every incident hyperedge loses n.  Collisions with an existing
         # key: weights add when weighted, metadata of either.  A hyperedge that becomes
-        # empty (or, directed, loses a whole side) may be dropped or kept.
-        outs = [S.copy()]
-        for T in outs:
-            del T.nodes[n]
-        for k in sorted(inc, key=lambda k: repr(sorted_key(k))):
-            new_outs = []
-            for T in outs:
-                w, md = T.edges.pop(k)
-                r = K.shrink(k, n)
-                degenerate = self._degenerate(r)
-                variants = []
-                if degenerate:
-                    variants.append(T.copy())  # dropped
-                if not degenerate or self.kind == "H":  # H may keep the empty hyperedge ()
-                    if r in T.edges:
-                        A = T.copy()
-                        if S.weighted:
-                            A.edges[r][0] = A.edges[r][0] + w
-                        B = A.copy()
-                        B.edges[r][1] = _copy.deepcopy(md)
-                        variants.append(A)
-                        if B.edges[r][1] != A.edges[r][1]:
-                            variants.append(B)
-                    else:
-                        A = T.copy()
-                        A.edges[r] = [w if S.weighted else 1, md]
-                        variants.append(A)
-                new_outs.extend(variants)
-            outs = new_outs[:64]
-        return outs
+        # empty (or, directed, loses a whole side) may be dropped or (H only) kept as ().
+        # Distinct incident keys shrink to distinct keys, so the choices are independent
+        # per resulting key: a Flex state lists the admissible (w, md) per key.
+        F = Flex(S.weighted, {m: _copy.deepcopy(md) for m, md in S.nodes.items() if m != n})
+        for k, v in S.edges.items():
+            if k not in inc:
+                F.edges[k] = [[v[0], _copy.deepcopy(v[1])]]
+        contrib = {}
+        for k in inc:
+            w, md = S.edges[k]
+            r = K.shrink(k, n)
+            if self._degenerate(r) and self.kind != "H":
+                continue  # dropped
+            contrib.setdefault(r, []).append((w, md))
+        for r, lst in contrib.items():  # (directed: several incident keys may shrink to one)
+            deg = self._degenerate(r)
+            mds = [_copy.deepcopy(md) for _, md in lst]
+            if r in F.edges:  # collision with a key that does not contain n
+                w0, md0 = F.edges[r][0]
+                ww = (w0 + sum(w for w, _ in lst)) if S.weighted else w0
+                alts = [[ww, md0]] + [[ww, m] for m in mds]
+                if deg:
+                    alts.append([w0, md0])  # the empty hyperedge was dropped instead
+                F.edges[r] = alts
+            else:
+                ww = sum(w for w, _ in lst) if S.weighted else 1
+                F.edges[r] = [[ww, m] for m in mds]
+                if deg:
+                    F.optional.add(r)
+        return [F]
 
     def _degenerate(self, r):
         if self.kind == "H":
@@ -297,7 +361,8 @@ class Model:
         if name == "remove_nodes":
             states, ok = [S.copy()], True
             pref = [S.copy()]
-            for n in a["ns"]:
+            ns = list(a["ns"])
+            for i, n in enumerate(ns):
                 nxt = []
                 for T in states:
                     if n not in T.nodes:
@@ -306,8 +371,18 @@ class Model:
                     nxt.extend(self._remove_node(T, n, a.get("keep", False)))
                 if not ok:
                     break
-                states = nxt[:64]
-                pref.extend(states)
+                pref.extend(nxt)
+                if i < len(ns) - 1:  # need concrete states to continue from
+                    conc = []
+                    for T in nxt:
+                        c = [T] if isinstance(T, State) else T.concretise()
+                        if c is None:
+                            return Outcome([], unknown=True)
+                        conc.extend(c)
+                    if len(conc) > 256:
+                        return Outcome([], unknown=True)
+                    nxt = conc
+                states = nxt
             if not ok:
                 return Outcome(pref, may_raise=True, rejected=pref)
             return Outcome(states)
